@@ -373,7 +373,7 @@ func (s *MsgSpec) Build(env *Env) (*mail.Msg, error) {
 	scratch := &bytes.Buffer{}
 	addFile := func(kind string, i int, f FileSpec) error {
 		var fo []mail.FileOption
-		if f.Enc != "" {
+		if f.Enc != "" && f.Enc != "qp-direct" {
 			fo = append(fo, mail.WithFileEncoding(enc(f.Enc)))
 		}
 		if f.CType != "" {
@@ -484,6 +484,10 @@ func (s *MsgSpec) Build(env *Env) (*mail.Msg, error) {
 		var fault *Fault
 		if ft, ok := env.Faults[fmt.Sprintf("%s%d", kind, i)]; ok {
 			fault = &ft
+		}
+		if f.Enc == "qp-direct" {
+			// the exported field assigned by the caller (WithFileEncoding refuses quoted-printable, the field does not)
+			files[i].Enc = mail.EncodingQP
 		}
 		if src == "writer" || f.Chunk > 0 {
 			files[i].Writer = chunkWriter(f.Content, f.Chunk, fault, env.Yield)
